@@ -302,8 +302,13 @@ func genRace(r *common.Rng) Case {
 		c.Race = append(c.Race, op)
 	}
 	if hasReload {
-		// the file was edited before the race starts, so that the reload takes it
-		c.Ops = append(c.Ops, "edit "+string(g.doc()))
+		if r.Bool() {
+			// the file was edited before the race starts, so that the reload takes it
+			c.Ops = append(c.Ops, "edit "+string(g.doc()))
+		} else {
+			// ... or it is edited while the operations run
+			c.Race = append(c.Race, "edit "+string(g.doc()))
+		}
 	}
 	return c
 }
